@@ -132,6 +132,7 @@ func load(o *opts) (*ssa.Package, types.Sizes) {
 	if err != nil {
 		fatal("load: %v", err)
 	}
+	clearSoftErrors(pkgs)
 	if packages.PrintErrors(pkgs) > 0 {
 		fatal("package errors")
 	}
@@ -192,6 +193,20 @@ func blankUnusedImports(f *ast.File) {
 		}
 		return true
 	})
+	// identifiers used as X in X.Sel that no import explains ("orphans") may be packages whose
+	// name differs from their import path: then nothing is blanked by guesswork in this file
+	explained := map[string]bool{}
+	type cand struct {
+		im    *ast.ImportSpec
+		names []string
+	}
+	var unnamed []cand
+	for _, im := range f.Imports {
+		if im.Name != nil {
+			explained[im.Name.Name] = true
+		}
+	}
+	_ = unnamed
 	for _, im := range f.Imports {
 		if im.Name != nil {
 			if im.Name.Name == "_" || im.Name.Name == "." {
@@ -222,13 +237,57 @@ func blankUnusedImports(f *ast.File) {
 		}
 		any := false
 		for _, c := range cands {
-			if used[c] || used[strings.Replace(c, "-", "_", -1)] {
+			c2 := strings.Replace(c, "-", "_", -1)
+			if used[c] || used[c2] {
 				any = true
+				explained[c], explained[c2] = true, true
 			}
 		}
 		if !any {
-			im.Name = ast.NewIdent("_")
+			unnamed = append(unnamed, cand{im, cands})
 		}
+	}
+	orphans := 0
+	for id := range used {
+		if !explained[id] && id != "C" && id != "unsafe" {
+			// lower-case identifiers could be variables in initialisers; package names are lower-case too: count them
+			orphans++
+		}
+	}
+	if orphans == 0 {
+		for _, c := range unnamed {
+			c.im.Name = ast.NewIdent("_")
+		}
+	}
+}
+
+// clearSoftErrors drops "imported and not used" errors (caused by body stripping) and recomputes IllTyped.
+func clearSoftErrors(pkgs []*packages.Package) {
+	seen := map[*packages.Package]bool{}
+	var visit func(p *packages.Package) bool
+	visit = func(p *packages.Package) bool {
+		if seen[p] {
+			return p.IllTyped
+		}
+		seen[p] = true
+		ill := false
+		for _, imp := range p.Imports {
+			if visit(imp) {
+				ill = true
+			}
+		}
+		var real []packages.Error
+		for _, e := range p.Errors {
+			if !strings.Contains(e.Msg, "imported and not used") && !(strings.Contains(e.Msg, "imported as") && strings.Contains(e.Msg, "and not used")) {
+				real = append(real, e)
+			}
+		}
+		p.Errors = real
+		p.IllTyped = ill || len(real) > 0
+		return p.IllTyped
+	}
+	for _, p := range pkgs {
+		visit(p)
 	}
 }
 
